@@ -399,7 +399,7 @@ fn tokenize_case(ctx: &mut Ctx, idx: u64) {
 }
 
 pub fn run(ctx: &mut Ctx) {
-    let n_cases = ctx.pick(3000, 600000);
+    let n_cases = ctx.pick(9000, 600000);
     for idx in 0..n_cases {
         if !ctx.mine(idx) {
             continue;
